@@ -52,7 +52,7 @@ rc, out = sh("git -C /repo apply %s" % patch)
 assert rc == 0, out
 try:
     for p in props:
-        rc, out = sh("./check %s" % p, ROOT)
+        rc, out = sh("VERIF_NO_EVIDENCE=1 ./check %s" % p, ROOT)
         lines = [l for l in out.splitlines() if l.startswith(("VIOLATION", "UNDECIDED", "OK", "KNOWN", "  failed"))]
         results[p] = {"exit": rc, "lines": lines[:12]}
         print(p, "exit", rc, "|", " || ".join(lines[:4])[:400])
